@@ -136,3 +136,9 @@ Definition flipped {A} (E : A -> A -> Prop) (F' F : frame A) : Prop :=
   forall r c, in_frame F r c -> E (f_at F' r c) (f_at F (frow F r) c).
 Definition flip_ok {A} (E : A -> A -> Prop) (f : op A A) : Prop :=
   forall F' F, flipped E F' F -> forall r c, in_frame F r c -> E (f F' r c) (f F (frow F r) c).
+
+(* the same, for rasters of nr x nc pixels only (a step whose window is clipped to the raster commutes with the flip
+   for the sizes that leave it an odd window) *)
+Definition flip_ok_at {A} (nr nc : Z) (E : A -> A -> Prop) (f : op A A) : Prop :=
+  forall F' F, f_nr F = nr -> f_nc F = nc -> flipped E F' F ->
+  forall r c, in_frame F r c -> E (f F' r c) (f F (frow F r) c).
